@@ -67,6 +67,9 @@ pub struct LargeCfg {
     /// writer's (C11), instead of in free space where only the content checks would notice
     #[serde(default)]
     pub alias_bad: bool,
+    /// imggen-built volumes: the root directory starts in the k-th cluster from the end (0 = cluster 2)
+    #[serde(default)]
+    pub root_at_end: u8,
 }
 
 pub const CANARY: u8 = 0xC7;
@@ -124,6 +127,9 @@ pub const GEN_PRESETS: &[(usize, u8, fn() -> GenGeom)] = &[
     (1, 2, || GenGeom { rsvd: 1, ext_sig: 0x28, ..Default::default() }),
     (8, 2, || GenGeom { rsvd: 4, ext_sig: 0x28, ..Default::default() }),
     (12, 2, || GenGeom { rsvd: 32, ext_sig: 0x01, ..Default::default() }),
+    // FAT32 root directory in the very last / second-to-last cluster
+    (12, 2, || GenGeom { rsvd: 32, root_from_end: 1, ..Default::default() }),
+    (13, 1, || GenGeom { rsvd: 16, root_from_end: 2, high_nibbles: true, ..Default::default() }),
 ];
 
 /// (FAT width, cluster count, sectors per cluster)
